@@ -195,7 +195,12 @@ done:
 	}
 	if overflow {
 		var z big.Int
-		bi, _ := z.SetString(string(ra[p0:pos+1]), int(radix))
+		// Blanks after the digits are part of what was read but not of
+		// the number.
+		bi, ok := z.SetString(strings.TrimSpace(string(ra[p0:pos+1])), int(radix))
+		if !ok {
+			slip.ErrorPanic(s, depth, "junk in string %q", string(ra))
+		}
 		return slip.Values{(*slip.Bignum)(bi), slip.Fixnum(start + pos + 1)}
 	}
 	if neg {
